@@ -399,7 +399,7 @@ func init() {
 		reg.Register(&reg.Scenario{Property: "C16", Name: "pair-" + k, Body: pair(k, false), Quick: q, Thorough: 3,
 			Doc: "two concurrent operations: " + k})
 	}
-	reg.Register(&reg.Scenario{Property: "C16", Name: "remove-vs-two-new-subscribers", Body: pair("remove-subscribe2", false), Quick: 2, Thorough: 3,
+	reg.Register(&reg.Scenario{Property: "C16", Name: "remove-vs-two-new-subscribers", Body: pair("remove-subscribe2", false), Quick: 1, Thorough: 3,
 		Doc: "an object with two subscribers is removed while two more clients subscribe to it"})
 	reg.Register(&reg.Scenario{Property: "C16", Name: "pair-remove-remove-statement-level", Body: pair("remove-remove", true), Quick: 2, Thorough: 3,
 		Doc: "two concurrent Remove of one object with bus/service.go interleaved at statement level"})
